@@ -69,3 +69,57 @@ func VX_C19_char() {
 		vxAssert(toks[0].Value == want, "char/inspect-output-reads-back-as-the-same-char")
 	}
 }
+
+// the symbol name the parser's symbolLiteral rule reads back from a source that must be a single
+// symbol literal: `:` followed by one identifier / constant / keyword / operator token (its
+// value or, for valueless tokens, its name), or by one double-quoted string without interpolation
+func vxLexSymbol(src string) (string, bool) {
+	toks := Lex(src)
+	if len(toks) < 2 || toks[0].Type != token.COLON {
+		return "", false
+	}
+	if toks[1].IsValidSimpleSymbolContent() {
+		return toks[1].FetchValue(), len(toks) == 2
+	}
+	if toks[1].Type != token.STRING_BEG {
+		return "", false
+	}
+	content := ""
+	i := 2
+	for ; i < len(toks) && toks[i].Type == token.STRING_CONTENT; i++ {
+		content += toks[i].Value
+	}
+	if i != len(toks)-1 || toks[i].Type != token.STRING_END {
+		return "", false
+	}
+	return content, true
+}
+
+// every symbol whose name is 0..1 arbitrary bytes, and (thorough) 2 bytes
+func VX_C19_symbol_bytes() {
+	vxExactFormat() // InspectSymbol builds its result with fmt.Sprintf
+	n := vxSplit("len", 2+vxTier())
+	s := vxString("s", n)
+	got, ok := vxLexSymbol(value.InspectSymbol(s))
+	vxAssert(ok, "symbol/inspect-output-is-one-symbol-literal")
+	vxAssert(!ok || got == s, "symbol/inspect-output-reads-back-as-the-same-name")
+}
+
+// every symbol whose name is one well-formed two-byte character, alone or before/after `a`
+func VX_C19_symbol_two_byte_char() {
+	vxExactFormat()
+	a, b := vxUint8("a"), vxUint8("b")
+	vxAssume(a >= 0xC2 && a <= 0xDF && b >= 0x80 && b <= 0xBF)
+	var s string
+	switch vxSplit("shape", 3) {
+	case 0:
+		s = string([]byte{a, b})
+	case 1:
+		s = string([]byte{a, b, 'a'})
+	default:
+		s = string([]byte{'a', a, b})
+	}
+	got, ok := vxLexSymbol(value.InspectSymbol(s))
+	vxAssert(ok, "symbol-char/inspect-output-is-one-symbol-literal")
+	vxAssert(!ok || got == s, "symbol-char/inspect-output-reads-back-as-the-same-name")
+}
